@@ -273,7 +273,8 @@ class PlanJoinTSPredictorQuery:
                                           order_by=order_by)
 
             integration_selects = [integration_select_1, integration_select_2]
-        elif isinstance(time_filter, BinaryOperation) and time_filter.op == '>' and time_filter.args[1] == Latest():
+        elif isinstance(time_filter, BinaryOperation) and time_filter.op == '>' and isinstance(time_filter.args[1], Latest):
+            # (not `== Latest()`: nodes compare by their text too, `(LATEST)` differs from `LATEST`)
             integration_select = Select(targets=[Star()],
                                         from_table=table,
                                         where=preparation_where,
